@@ -12,7 +12,7 @@ CONSTANTS MaxC,        \* length constants range over 0..MaxC
 
 Cs == 0..MaxC
 RecOps == LenOps \ {"!="}
-NeedsOpt(cls, prim) == \E j \in 1..Len(cls) : \E a \in Range(cls[j]) : a.g \in SameGuards
+NeedsOpt(cls, prim) == \E j \in 1..Len(cls) : \E a \in Range(cls[j]) : a.g \in SameGuards \cup ChainedGuards
 Scn(kind, wmt, cls, prim) == [kind |-> kind, opt |-> NeedsOpt(cls, prim), wmt |-> wmt, shape |-> "chain", porder |-> <<>>, cls |-> cls, prim |-> prim]
 Dia(kind, shape, cls, prim) == [kind |-> kind, opt |-> NeedsOpt(cls, prim), wmt |-> TRUE, shape |-> shape, porder |-> <<>>, cls |-> cls, prim |-> prim]
 DiaShapes == {"dia_ab", "dia_ba"}
